@@ -4,7 +4,7 @@ from __future__ import annotations
 
 from .. import terms as tm
 from ..model import AnalysisError
-from .common import ob, need, call_name, is_lit, role_of, roles
+from .common import ob, need, call_name, is_lit, role_of, roles, strip_numeric, count_form
 from . import common
 from .. import symeval
 from . import c06, c12
@@ -184,6 +184,145 @@ def rule_symmetry(ctx):
             yield o
 
 
+class _NotAlgebraic(Exception):
+    pass
+
+
+def _to_rat(t, atom, depth=0):
+    """term -> ratfun.Rat; `atom(t)` supplies the value of non-arithmetic sub-terms (or None)"""
+    from ..ratfun import Rat
+    from fractions import Fraction
+
+    if depth > 60:
+        raise _NotAlgebraic("too deep")
+    r = atom(t)
+    if r is not None:
+        return r
+    if t.op == "const" and isinstance(t.a[0], (int, float)) and not isinstance(t.a[0], bool):
+        return Rat.const(Fraction(t.a[0]).limit_denominator(10**9))
+    if t.op == "bin":
+        o = t.a[0]
+        if o == "**" and t.a[2].op == "const" and float(t.a[2].a[0]).is_integer() and 0 <= t.a[2].a[0] <= 6:
+            return _to_rat(t.a[1], atom, depth + 1).power(int(t.a[2].a[0]))
+        l, r2 = _to_rat(t.a[1], atom, depth + 1), _to_rat(t.a[2], atom, depth + 1)
+        if o == "+":
+            return l + r2
+        if o == "-":
+            return l - r2
+        if o == "*":
+            return l * r2
+        if o in ("/", "//"):
+            return l / r2  # `//` is exact on the even products it is applied to here (x * (x - 1))
+        raise _NotAlgebraic("operator " + o)
+    if t.op == "un" and t.a[0] == "-":
+        return -_to_rat(t.a[1], atom, depth + 1)
+    if t.op == "call" and call_name(t) in ("builtins.float", "builtins.int", "np.float64", "np.int64") and len(t.a[1]) == 1:
+        return _to_rat(t.a[1][0], atom, depth + 1)
+    if t.op == "call" and call_name(t) == "scipy.special.comb" and len(t.a[1]) >= 2 and tm.is_const(t.a[1][1], 2):
+        y = _to_rat(t.a[1][0], atom, depth + 1)
+        return (y * y - y) / Rat.const(2)
+    raise _NotAlgebraic(tm.show(t, 2))
+
+
+def _pairs_sum_carrier(t):
+    """X when t = sum of x * (x - 1) / 2 over the elements x of X (comb(x, 2), any algebraic spelling), else None"""
+    from ..ratfun import Rat
+
+    want = (Rat.var("x") * Rat.var("x") - Rat.var("x")) / Rat.const(2)
+    t = strip_numeric(t)
+    if not (t.op == "call" and call_name(t) in ("builtins.sum", "np.sum") and t.a[1]):
+        return None
+    inner = t.a[1][0]
+    if inner.op == "comp" and inner.a[0] in ("gen", "list") and len(inner.a[2]) == 1 and not inner.a[3]:
+        X = inner.a[2][0]
+        el = tm.mk("iter", X, inner.a[4])
+        try:
+            got = _to_rat(inner.a[1], lambda z: Rat.var("x") if z is el else None)
+        except (_NotAlgebraic, ZeroDivisionError):
+            return None
+        return X if got.same(want) else None
+    # vectorised: np.sum(E(X)) with E element-wise in one array X
+    cands = [z for z in tm.walk(inner) if z.op == "call" and call_name(z) in ("np.sum", "np.flatten", "np.ravel") and any(y.op == "call" and call_name(y) == "segment._contingency_matrix" for y in tm.walk(z))]
+    cands += [z for z in tm.walk(inner) if z.op == "attr" and z.a[1] == "data"]
+    cands += [z for z in tm.walk(inner) if z.op == "call" and call_name(z) == "segment._contingency_matrix"]
+    for X in cands:
+        try:
+            got = _to_rat(inner, lambda z, X=X: Rat.var("x") if z is X else None)
+        except (_NotAlgebraic, ZeroDivisionError):
+            continue
+        if got.same(want):
+            return X
+    return None
+
+
+def ari_formula_ok(ctx):
+    """True when ARIFORM establishes the (A <-> B symmetric) textbook formula on this tree"""
+    try:
+        return all(o.ok for o in rule_ariform(ctx))
+    except AnalysisError:
+        return False
+
+
+def rule_ariform(ctx):
+    """The adjusted Rand index as an exact rational function of the four pair counts it is defined by:
+    ARI = (S - A B / N) / ((A + B) / 2 - A B / N) with S, A, B the numbers of co-clustered pairs in the cells, rows and
+    columns of the contingency table and N = n (n - 1) / 2.  The returned term is normalised to numerator / denominator
+    over the indeterminates S, A, B, n and compared with the definition by cross-multiplication: every algebraic
+    re-arrangement passes, any other formula does not."""
+    from ..ratfun import Rat
+
+    R = "C16.ARIFORM"
+    f = ctx.program.func("segment._adjusted_rand_index", R)
+    s = ctx.S.get(f.qual)
+    main = [r for r in s.returns if not is_lit(r.term)]
+    need(len(main) == 1, R, "_adjusted_rand_index: computed return not found")
+    seen = {}
+
+    def classify(X):
+        X0 = X
+        while X0.op == "call" and call_name(X0) in ("astype", "np.asarray", "np.array", "builtins.list", "np.ravel", "np.flatten") and X0.a[1]:
+            if call_name(X0) in ("np.ravel", "np.flatten"):
+                inner = X0.a[1][0]
+                if inner.op == "call" and call_name(inner) == "segment._contingency_matrix":
+                    return "S"
+            X0 = X0.a[1][0]
+        if X0.op == "attr" and X0.a[1] == "data":
+            return "S"
+        if X0.op == "call" and call_name(X0) == "segment._contingency_matrix":
+            return "S"  # every cell of the table
+        if X0.op == "call" and call_name(X0) == "np.sum" and X0.a[1] and X0.a[1][0].op == "call" and call_name(X0.a[1][0]) == "segment._contingency_matrix":
+            ax = dict(X0.a[2]).get("axis")
+            if ax is not None and ax.op == "const":
+                return {1: "A", 0: "B"}.get(int(ax.a[0]))
+        return None
+
+    def atom(t):
+        X = _pairs_sum_carrier(t)
+        if X is not None:
+            k = classify(X)
+            if k is None:
+                raise _NotAlgebraic("pair count over %s" % tm.show(X, 2))
+            seen[k] = seen.get(k, 0) + 1
+            return Rat.var(k)
+        cf = count_form(t)
+        if cf is not None and cf[1].op == "param":
+            seen["n"] = seen.get("n", 0) + 1
+            return Rat.var("n")
+        return None
+
+    try:
+        got = _to_rat(main[0].term, atom)
+    except _NotAlgebraic as e:
+        raise AnalysisError(R, "_adjusted_rand_index: the returned expression is not a rational function of the pair counts (%s)" % e)
+    except ZeroDivisionError:
+        raise AnalysisError(R, "_adjusted_rand_index: division by an identically zero expression")
+    S, A, B, n = Rat.var("S"), Rat.var("A"), Rat.var("B"), Rat.var("n")
+    N = (n * n - n) / Rat.const(2)
+    want = (S - A * B / N) / ((A + B) / Rat.const(2) - A * B / N)
+    good = got.same(want) and {"S", "A", "B", "n"} <= set(seen)
+    yield ob(R, f, "segment._adjusted_rand_index:formula", good, "the returned value is (S - AB/N) / ((A+B)/2 - AB/N) over the pair counts of cells (S), rows (A), columns (B) and all frames (N = n(n-1)/2) - compared as exact rational functions" if good else "the returned expression is not the adjusted Rand index of the contingency table (as a rational function of the cell / row / column pair counts it differs from (S - AB/N) / ((A+B)/2 - AB/N))", node=main[0].node)
+
+
 def rule_nceform(ctx):
     """Which quantity normalises which, in nce(): facets of the documented definition."""
     R = "C16.NCEFORM"
@@ -278,6 +417,7 @@ def rule_nmifloor(ctx):
 
 
 RULES = [
+    ("C16.ARIFORM", 1, rule_ariform),
     ("C16.KWVIEW", 5, common.shared("c03", "rule_kwview", "C16.KWVIEW", keep=lambda o: o.construct.startswith("segment."))),
     ("C16.NCEGUARD", 2, common.shared("c12", "rule_nceguard", "C16.NCEGUARD")),
     ("C16.NMIFLOOR", 1, rule_nmifloor),
